@@ -13,6 +13,10 @@ def run():
     hs = maximal_histories(r.json_lines)
     cases = [from_emission(j) for j in hs]
     lattice = len(cases)
+    # long histories (up to 8 operations + continuation) from TLC's simulation mode, kept inside 32-bit rationals by a state constraint
+    rs = c.model("MC_Weaver", "MC_Weaver_sim.cfg", workers=8, simulate="num=%d" % (400 if c.thorough else 40), depth=12, emits_all=False)
+    sims = [from_emission(j) for j in maximal_histories(rs.json_lines)]
+    cases += sims
     for i in range(6000 if c.thorough else 800):
         cases.append(random_history(c.rng, maxlen=8, with_rejects=False))
     if c.replay_path:
@@ -42,7 +46,7 @@ def run():
               "harness-originated: seeded random histories of 0..8 domain operations with admissible arguments on random series (array / "
               "list / int containers) + continuation. P08 clauses are judged on the recorded series only (reference' = F_op(reference) "
               "with the standalone function applied to the previously recorded reference). non-trivial = >= 2 operations; distinct by case")
-    c.coverage_extra = {"lattice_histories_from_tlc": lattice, "emitted_states": len(r.json_lines), "random_histories": len(cases) - lattice,
+    c.coverage_extra = {"simulated_long_histories_from_tlc": len(sims), "lattice_histories_from_tlc": lattice, "emitted_states": len(r.json_lines), "random_histories": len(cases) - lattice - len(sims),
                         "steps_observed": sum(len(e["steps"]) for e in evs)}
     c.assumptions = ["TLC 1.8, CommunityModules Json/IOUtils", "state projected through get(), get_reference(), get_original() after every call",
                      "once a recorded state drifts from the specification's state the rest of that history is not judged"]
